@@ -10,22 +10,22 @@ import (
 
 func init() {
 	register("C04", propMeta{
-		Explanation: "Decides who can mint, burn, lock and unlock NFTs and under which verified event: the NFT module's mutators are called only from SendNftTransfer, Keeper.OnRecvPacket and refundPacketToken, which are reachable only from the NftTransfer message, AppModule.OnRecvPacket and AppModule.OnAcknowledgementPacket, and those callbacks only from the core handlers' router dispatch; on send exactly one of {lock into the module account, burn} of the caller's own (class,id) debiting the sender parameter precedes SendPacket, selected by the very boolean written into the packet; a native class shaped like a voucher path is rejected before the direction decision; on receive, minting (voucher class = hash of the path extended by the packet's own source/dest and data.Class, id = data.Id, to the module account, then to the receiver decoded from data.Receiver) happens exactly under data.AwayFromOrigin and the escrow release (class parsed back from data.Class, id = data.Id, module account -> receiver) exactly under its negation, both only after data.ValidateBasic and receiver decoding succeeded; refund: unlock to the decoded data.Sender under data.AwayFromOrigin, re-mint + hand over under its negation, only for an error acknowledgement; escrow releases occur nowhere else; the acknowledgement callback runs only on the packet's source chain. NOT decided: uniqueness of ownership across chains, id collisions inside the NFT module, multi-hop histories.",
+		Explanation: "Decides who can mint, burn, lock and unlock NFTs and under which verified event: the NFT module's mutators are called only from SendNftTransfer, Keeper.OnRecvPacket and refundPacketToken, which are reachable only from the NftTransfer message, AppModule.OnRecvPacket and AppModule.OnAcknowledgementPacket, and those callbacks only from the core handlers' router dispatch; on send exactly one of {lock into the module account, burn} of the caller's own (class,id) debiting the sender parameter precedes SendPacket, selected by the very boolean written into the packet; a native class shaped like a voucher path is rejected before the direction decision; on receive, minting (voucher class = hash of the path extended by the packet's own source/dest and data.Class, id = data.Id, to the module account, then to the receiver decoded from data.Receiver) happens exactly under data.AwayFromOrigin and the escrow release (class parsed back from data.Class, id = data.Id, module account -> receiver) exactly under its negation, both only after data.ValidateBasic and receiver decoding succeeded; refund: unlock to the decoded data.Sender under data.AwayFromOrigin, re-mint + hand over under its negation, only for an error acknowledgement; escrow releases occur nowhere else; the acknowledgement callback runs only on the packet's source chain. Also: the class-trace codec is lossless (GetFullClassPath = Path + delimiter + BaseClass, ParseClassTrace = whole string / Split-Join / LastIndex form with the same delimiter), so two class paths never share a voucher class; Keeper.AcknowledgePacket acts only while the packet's own commitment matches and deletes exactly that commitment on every success path (a refund cannot be replayed). NOT decided: uniqueness of ownership across chains, id collisions inside the NFT module, multi-hop histories.",
 		Assumptions: []string{"the NFT module enforces ownership in TransferOwner/BurnNFT for the owner argument it is given"},
 		Trusted:     commonTrusted,
 	}, func(w *World, r *Report) { ruleTransferApp(w, r, "C04", apps[0]) })
 	register("C05", propMeta{
-		Explanation: "Decides the structural conditions of conservation for multi-token transfers: the amount parameter of SendMtTransfer is the very value locked/burned and the value written into the packet; on receive and refund every IssueMT/MintMT/TransferOwner takes data.Amount, data.Id and the voucher class derived from the packet, under the same branch table as C04 (mint <-> AwayFromOrigin, unlock <-> its negation, refund mirrors send), after ValidateBasic (which rejects amount 0) and address decoding; no arithmetic or narrowing conversion is applied to an amount anywhere in the mt-transfer module (wrap-around cannot be introduced here); the pinned MT module guards balance and supply increases against uint64 overflow before writing; every error of an MtKeeper call is propagated (one reasoned exception: IssueDenom for a voucher class, whose failure surfaces in the following IssueMT). NOT decided: the conservation sum itself over histories, partial returns, several holders.",
+		Explanation: "Decides the structural conditions of conservation for multi-token transfers: the amount parameter of SendMtTransfer is the very value locked/burned and the value written into the packet; on receive and refund every IssueMT/MintMT/TransferOwner takes data.Amount, data.Id and the voucher class derived from the packet, under the same branch table as C04 (mint <-> AwayFromOrigin, unlock <-> its negation, refund mirrors send), after ValidateBasic (which rejects amount 0) and address decoding; no arithmetic or narrowing conversion is applied to an amount anywhere in the mt-transfer module (wrap-around cannot be introduced here); the pinned MT module guards balance and supply increases against uint64 overflow before writing; every error of an MtKeeper call is propagated (one reasoned exception: IssueDenom for a voucher class, whose failure surfaces in the following IssueMT). Also: class-trace codec lossless and acknowledgement processed at most once, as for C04. NOT decided: the conservation sum itself over histories, partial returns, several holders.",
 		Assumptions: []string{"the MT module debits exactly the amount it is given"},
 		Trusted:     commonTrusted,
 	}, func(w *World, r *Report) { ruleTransferApp(w, r, "C05", apps[1]) })
 	register("C06", propMeta{
-		Explanation: "Decides: refund credits the account decoded from data.Sender with data.Id (and data.Amount) of the class parsed from data.Class, the fields the send side filled from its own sender, id, amount and full class path; refund undoes lock with unlock and burn with re-mint, selected by data.AwayFromOrigin (the flag the sender wrote), for NFT and MT; the path helpers of the two applications (determineAwayFromOrigin, getAwayNewClassPath, getBackNewClassPath, concatClassPath, ParseClassTrace, IBCClass, GetFullClassPath) are identical up to the prefix constant; the sender-side direction test and the receiver-side path extension use the same 'is a voucher path' predicate; native NFT classes shaped like a path are rejected on send (MT native ids are module-generated hex hashes). NOT decided: that path construction and stripping are inverse for all strings and routes, that every intermediate voucher is gone (behavioural).",
+		Explanation: "Decides: refund credits the account decoded from data.Sender with data.Id (and data.Amount) of the class parsed from data.Class, the fields the send side filled from its own sender, id, amount and full class path; refund undoes lock with unlock and burn with re-mint, selected by data.AwayFromOrigin (the flag the sender wrote), for NFT and MT; the path helpers of the two applications (determineAwayFromOrigin, getAwayNewClassPath, getBackNewClassPath, concatClassPath, ParseClassTrace, IBCClass, GetFullClassPath) are identical up to the prefix constant; the sender-side direction test and the receiver-side path extension use the same 'is a voucher path' predicate; native NFT classes shaped like a path are rejected on send (MT native ids are module-generated hex hashes). Also: class-trace codec lossless; acknowledgement processed at most once (ack-once obligations on Keeper.AcknowledgePacket); on receive everything that can fail (receiver decoding) precedes the first token operation, so a receive that ends in an error acknowledgement leaves no voucher behind. NOT decided: that path construction and stripping are inverse for all strings and routes, that every intermediate voucher is gone (behavioural).",
 		Assumptions: []string{"token modules behave as specified"},
 		Trusted:     commonTrusted,
 	}, ruleC06)
 	register("C19", propMeta{
-		Explanation: "Decides error discipline: in all Msg handlers, both application callbacks and the keeper functions below them no error of a keeper, light-client or token-module call is discarded or overtaken by a success return, except the two sanctioned conversions (ErrUnauthorized -> written error acknowledgement in msgServer.RecvPacket; application error -> error acknowledgement in AppModule.OnRecvPacket) and one reasoned discard; AppModule.OnRecvPacket returns an error acknowledgement (never a result acknowledgement) whenever the keeper callback failed; in the keeper callbacks all input validation (ValidateBasic, address decoding, class-prefix check) dominates the first token mutation, so an invalid packet is answered with an error acknowledgement before any token state is touched; on the ErrUnauthorized path the packet layer writes exactly receipt, acknowledgement and maxAck; nothing reachable from a handler writes package-level state (shared with C20). NOT decided: that a failing message leaves the store unchanged (SDK branching, trusted); token state after an error acknowledgement caused by a token-module failure in the middle of a multi-step mint (needs a cached context - reported as INFO, not armed).",
+		Explanation: "Decides error discipline: in all Msg handlers, both application callbacks and the keeper functions below them no error of a keeper, light-client or token-module call is discarded or overtaken by a success return, except the two sanctioned conversions (ErrUnauthorized -> written error acknowledgement in msgServer.RecvPacket; application error -> error acknowledgement in AppModule.OnRecvPacket) and one reasoned discard; AppModule.OnRecvPacket returns an error acknowledgement (never a result acknowledgement) whenever the keeper callback failed; in the keeper callbacks all input validation (ValidateBasic, address decoding, class-prefix check) dominates the first token mutation, so an invalid packet is answered with an error acknowledgement before any token state is touched; on the ErrUnauthorized path the packet layer writes exactly receipt, acknowledgement and maxAck; nothing reachable from a handler writes package-level state (shared with C20). No code reachable from a message handler or application callback branches the store (CacheContext/CacheMultiStore): what a successful path commits is everything its steps wrote. NOT decided: that a failing message leaves the store unchanged (SDK branching, trusted); token state after an error acknowledgement caused by a token-module failure in the middle of a multi-step mint (needs a cached context - reported as INFO, not armed).",
 		Assumptions: []string{"cosmos-sdk store branching discards writes of failed messages"},
 		Trusted:     commonTrusted,
 	}, ruleC19)
